@@ -11,11 +11,9 @@ PUBLIC_OPS = ['_signatures:merge', '_signatures:embed', '_signatures:mask', '_si
 
 # "inspect raises the same type for the same object" (DESIGN C07.R1): reviewed, one reason each
 REVIEWED_VIA = {
-    '_autoforwards:autoforwards_method|call:_signatures.mask':
-        "mask(sig, 1) of a bound method fails only when the function takes no positional argument: inspect.signature raises "
-        "ValueError('invalid method signature') for the same object",
-    '_autoforwards:autoforwards_partial|call:_signatures._mask':
-        "surplus/unknown arguments bound by a functools.partial: inspect.signature raises ValueError for the same partial",
+    # (two entries were removed in round 6: mask() inside autoforwards_method / autoforwards_partial is applied to the *discovered*
+    # signature, which can lack the positional slot or the keyword although the object's own signature -- what inspect looks at --
+    # has them: D33.  Only the plain retrieval below masks the object's own signature.)
     '_signatures:signature|call:_mask':
         "plain retrieval of a functools.partial with surplus/unknown bound arguments: inspect.signature raises ValueError too",
 }
@@ -850,3 +848,46 @@ def rule_sphinx_output(check, rule):
         else:
             check.holds(rule, st, 'the hook returns (text of the argument list, text of the return annotation or "")', key=key)
     check.floor(rule, 'successful returns of the Sphinx hook', n, 2)
+
+
+# ---------------------------------------------------------------------------
+# C07.R13 -- the inspected object is used as a dictionary key / set member
+
+def rule_subject_hashed(check, rule):
+    """C07.R13: inspect.signature works on unhashable callables (a callable instance of a class with `__eq__` and no `__hash__`).  Putting the
+    inspected object into a set, or using it as a dictionary key, raises TypeError for them.  The sites where retrieval does that
+    with the object it was handed: the recursion guard of the as_forged descriptor (set membership) and default_sources (the
+    '+depths' map is keyed by the callables themselves -- part of the documented shape of `sources`)."""
+    repo = check.repo
+    n = 0
+    sites = []
+    fi = repo.func('_signatures:default_sources', required=False)
+    if fi is not None:
+        check.analysed(fi)
+        params = fi.params()[0]
+        for d in ast.walk(fi.node):
+            if isinstance(d, ast.Dict):
+                for k_ in d.keys:
+                    if isinstance(k_, ast.Name) and k_.id in params:
+                        sites.append((fi, d, 'dict key %s' % k_.id))
+    fi = repo.func('specifiers:_AsForged.__get__', required=False)
+    if fi is not None:
+        check.analysed(fi)
+        params = set(fi.params()[0][1:])
+        subj = set()
+        for a in ast.walk(fi.node):
+            if isinstance(a, ast.Assign) and len(a.targets) == 1 and isinstance(a.targets[0], ast.Name) and \
+                    any(isinstance(x, ast.Name) and x.id in params for x in ast.walk(a.value)):
+                subj.add(a.targets[0].id)
+        for c in ast.walk(fi.node):
+            if isinstance(c, ast.Compare) and len(c.ops) == 1 and isinstance(c.ops[0], (ast.In, ast.NotIn)) and isinstance(c.left, ast.Name) \
+                    and c.left.id in subj | params:
+                sites.append((fi, c, 'set membership of %s' % c.left.id))
+                break
+    for fi, node, how in sites:
+        n += 1
+        check.violation(rule, site_of(fi, node), '%s: the inspected object is hashed (%s); an unhashable callable on which inspect.signature succeeds '
+                        'makes retrieval raise TypeError' % (fi.name, how), key='hash-subject|%s' % fi.key,
+                        witness='class U: __hash__ = None; def __call__(self, a): ...   sigtools.signature(U()) raises TypeError')
+    if not sites:
+        check.holds(rule, '-', 'retrieval does not hash the object it inspects', key='hash-subject|none', nontrivial=False)
